@@ -305,7 +305,7 @@ pub fn soft_error_laws(bytes: &[u8]) -> Vec<String> {
     }
 }
 
-/// Natural failures of the 'read linker debug data' step: the 12 chain shapes of the synthetic linker
+/// Natural failures of the 'read linker debug data' step: the 14 chain shapes of the synthetic linker
 /// window (C02 family D) — whatever the shape, the dump succeeds, the soft-error stream is a JSON list,
 /// a missing linker stream is reported, and all other streams equal the baseline over the intact window.
 fn run_linker_shape(shape: usize) -> Res {
